@@ -147,7 +147,12 @@ func VerifC12_GovBatch() {
 	want0 := zzverif.U64("req0")
 	want1 := zzverif.U64("req1")
 	zzverif.Assume(want0 <= maxSeq && want1 <= maxSeq)
-	res, berr := d.GetGovernanceVAABatch(gc, ga, []uint64{want0, want1})
+	req := []uint64{want0, want1}
+	if zzverif.Len("nreq", 2, 1) == 1 { // a single requested sequence (several target chains may carry it)
+		req = []uint64{want0}
+		want1 = want0
+	}
+	res, berr := d.GetGovernanceVAABatch(gc, ga, req)
 	zzverif.Assert(berr == nil, "batch-ok")
 	if berr != nil {
 		return
